@@ -57,6 +57,34 @@ fn main() {
     }
     i += 1;
   }
+  // positive controls for the sanitizer stages: deliberately broken code that the
+  // engine under which this binary runs must report (never reached by any monitor)
+  if ctx.prop == "selftest-race" {
+    static mut COUNTER: u64 = 0;
+    let hs: Vec<_> = (0..2)
+      .map(|_| {
+        std::thread::spawn(|| {
+          for _ in 0..10_000 {
+            unsafe {
+              let p = std::ptr::addr_of_mut!(COUNTER);
+              std::ptr::write_volatile(p, std::ptr::read_volatile(p) + 1);
+            }
+          }
+        })
+      })
+      .collect();
+    for h in hs {
+      let _ = h.join();
+    }
+    println!("selftest-race done {}", unsafe { std::ptr::read_volatile(std::ptr::addr_of!(COUNTER)) });
+    return;
+  }
+  if ctx.prop == "selftest-heap" {
+    let v: Vec<u8> = vec![1u8; 24];
+    let x = unsafe { std::ptr::read_volatile(v.as_ptr().add(24 + 8)) };
+    println!("selftest-heap read {}", x);
+    return;
+  }
   install_panic_hook();
   let t0 = Instant::now();
   let rec = match guarded(|| prop::dispatch(&ctx)) {
